@@ -554,3 +554,17 @@ Fixpoint stream_poll (has_op cancelled : bool) (sched : list sans) : sout * bool
 (* n times: the operation ended before EOF and was re-created *)
 Fixpoint rearm (n : nat) : list sans :=
   match n with O => [] | S m => AInner MEnd :: ACreate None :: rearm m end.
+
+(* ---------------------------------------------------------------------- *)
+(* NOT the code — the variant "set_result returns early when the result is an
+   error": the buffer id an error completion carries is ignored.  Used only
+   for the refutation witness of prop/C07.v (the kernel has consumed that
+   buffer from the ring, so nobody owns it any more).                        *)
+Definition cqe_early_return (s : st) : option (R st) :=
+  match cq s with
+  | c :: rest =>
+    if negb (c_more c) && is_err (c_res c)
+    then step (set_cq s (mk_cqe (c_op c) None (c_more c) (c_res c) :: rest)) LCqe
+    else step s LCqe
+  | [] => None
+  end.
